@@ -54,7 +54,18 @@ def gen_case(rng: random.Random, tier: str):
             ops.append({"op": "parse_fault", "i": rng.randrange(6), "e": rng.choice(["EIO", "EINTR"])})
     if not any(o["op"] == "parse" for o in ops):
         ops.append({"op": "parse", "form": "call"})
-    return {"cfg": cfg, "defs": defs, "eof_tagged": g.has_eof, "seed": rng.getrandbits(32), "image": None, "marks": None,
+    # what is parsed: usually the last structure; sometimes an enum/flag type, a scalar, or an array type used as a
+    # top-level type (all of them accept the same call forms and input kinds)
+    root_sel = None
+    r = rng.random()
+    if r < 0.12 and [e for e in defs["enums"] if e["name"]]:
+        root_sel = {"k": "enum", "name": rng.choice([e["name"] for e in defs["enums"] if e["name"]])}
+    elif r < 0.17:
+        root_sel = {"k": "scalar", "name": rng.choice(["int16", "uint32", "int64", "int24", "uint48", "wchar", "char", "float", "ileb128", "uint128"])}
+    elif r < 0.22:
+        root_sel = {"k": "array", "name": rng.choice(["uint16", "int32", "int24", "char", "wchar", "uint8"]), "n": rng.randint(1, 4)}
+    return {"cfg": cfg, "defs": defs, "eof_tagged": g.has_eof and root_sel is None, "seed": rng.getrandbits(32), "image": None, "marks": None,
+            "root_sel": root_sel,
             "pre": rng.randint(0, 3) * unit if rng.random() < 0.3 else rng.randint(0, 40) // unit * unit,
             "gap": rng.randint(0, 24) // unit * unit, "suf": rng.randint(0, 24), "kind": rng.choice(["bytesio", "sim"]),
             "ops": ops, "twin_seed": rng.getrandbits(32)}
@@ -88,7 +99,7 @@ def _do_parse(cs, root, name, stream, form):
         return root(stream)
     if form == "read":
         return root.read(stream)
-    if form == "cs.read":
+    if form == "cs.read" and name is not None:
         return cs.read(name, stream)
     return root._read(stream)
 
@@ -97,11 +108,19 @@ def run_case(case, stats):
     cfg = case["cfg"]
     try:
         cs = gen.make_cs(cfg, gen.render(case["defs"]))
-        name = case["defs"]["structs"][-1]["name"]
-        root = getattr(cs, name)
-        # the stand-alone reference parses are done by a SECOND cstruct object with the same definitions, so that they
-        # cannot disturb (or repair) any state the history under test leaves on the type objects
-        root_ref = getattr(gen.make_cs(cfg, gen.render(case["defs"])), name)
+        cs2 = gen.make_cs(cfg, gen.render(case["defs"]))
+        sel = case.get("root_sel")
+        if sel is None:
+            name = case["defs"]["structs"][-1]["name"]
+            root, root_ref = getattr(cs, name), getattr(cs2, name)
+        elif sel["k"] == "array":
+            name = None  # array types have no name in the type table: cs.read(name, x) does not apply
+            root, root_ref = cs.resolve(sel["name"])[sel["n"]], cs2.resolve(sel["name"])[sel["n"]]
+        else:
+            name = sel["name"]
+            root, root_ref = cs.resolve(name), cs2.resolve(name)
+        # the stand-alone reference parses are done by a SECOND cstruct object (cs2) with the same definitions, so that
+        # they cannot disturb (or repair) any state the history under test leaves on the type objects
     except Exception:
         raise Discard("load_fail")
     if case["image"] is None:
@@ -245,8 +264,10 @@ def run_case(case, stats):
                         v = root.read(obj)
                     elif form == "reads":
                         v = root.reads(obj)
-                    else:
+                    elif name is not None:
                         v = cs.read(name, obj)
+                    else:
+                        v = root(obj)
                     g2 = ("val", _values_only(observe(v)))
                 except Exception as e:  # noqa: BLE001
                     g2 = ("exc", type(e).__name__)
